@@ -139,6 +139,13 @@ func (g *c02Gen) boxStyle() string {
 	if rapid.IntRange(0, 9).Draw(t, "bdb") == 0 {
 		d = append(d, "box-decoration-break:clone")
 	}
+	if rapid.IntRange(0, 7).Draw(t, "paint") == 0 {
+		// effects applied when painting: they move or blend what is drawn, never remove it
+		// (invertible transforms only: mirrored, rotated, scaled, skewed)
+		d = append(d, rapid.SampledFrom([]string{"transform:rotate(10deg)", "transform:scaleX(-1)", "transform:scale(-1, 1)", "transform:matrix(1, 0, 0, -1, 0, 0)", "transform:scale(0.5)", "transform:translate(3px, 2px)",
+			"transform:skewX(60deg) skewY(60deg)", "transform:rotate(180deg) scaleY(-2)", "opacity:0.5", "opacity:0.5;transform:scaleY(-1)"}).Draw(t, "effect"))
+		g.feat["paint-effect"] = true
+	}
 	return strings.Join(d, ";")
 }
 
